@@ -110,6 +110,56 @@ def client_text(form: str, subset) -> str:
 FORMS = ["from_used", "from_unused", "from_alias", "from_list", "module_attr", "module_alias", "star", "object_attr"]
 
 
+# a library with backwards-compatibility aliases: groups of functions with alpha-equivalent bodies
+# (remove_duplicate_functions buckets).  A preserved client may reference SEVERAL members of one bucket.
+ALIAS_DEFS = ["mean", "average", "arithmeticMean", "value_range", "spread"]
+ALIAS_LIB = '''def mean(values):
+    total = sum(values)
+    return total / len(values)
+
+
+def average(items):
+    acc = sum(items)
+    return acc / len(items)
+
+
+def arithmeticMean(xs):
+    s = sum(xs)
+    return s / len(xs)
+
+
+def value_range(values):
+    return max(values) - min(values)
+
+
+def spread(items):
+    return max(items) - min(items)
+
+
+def unrelated(values):
+    return sorted(values)[0]
+'''
+for _n in ALIAS_DEFS:
+    USE[_n] = "print({e}([1, 2, 6]))"
+ALIAS_FORMS = ["from_used", "from_unused", "from_alias", "module_attr", "star"]
+
+
+def alias_pairs():
+    for form in ALIAS_FORMS:
+        for k in range(len(ALIAS_DEFS) + 1):
+            for subset in itertools.combinations(ALIAS_DEFS, k):
+                yield form, subset, client_text(form, subset)
+
+
+DUP_STATEMENTS = [   # duplicate groups for the rule correspondence, several preserved members per bucket
+    ALIAS_LIB,
+    "def dupA():\n    return 1 + 2\ndef dupB():\n    return 1 + 2\ndef dupC():\n    return 1 + 2\n"
+    "async def dupD():\n    return 1 + 2\nprint(dupB(), dupC())\n",
+    "def twice(x):\n    y = x * 2\n    return y\ndef double(z):\n    w = z * 2\n    return w\n"
+    "class K:\n    def twice(self):\n        return 1\n",
+]
+
+
 def all_pairs():
     for form in FORMS:
         for k in range(len(LIB_DEFS) + 1):
@@ -368,6 +418,22 @@ def check(run: common.Run):
                     continue
                 hist[f"{rule}:{'changed' if out != src else 'same'}"] += 1
                 rcases.append((k10.rule_case(rule, P, src, out, False), ("rule", rule, sorted(P), src, out, False)))
+    for src in DUP_STATEMENTS:
+        fnames = [n.name for n in ast.parse(src).body if isinstance(n, (ast.FunctionDef, ast.AsyncFunctionDef))]
+        for k in range(len(fnames) + 1):
+            for P in itertools.combinations(fnames, k):
+                for rule in ("RDuplicate", "RDeleteUnused", "RAlign"):
+                    try:
+                        out = k10.run_rule(mods, rule, src, P)
+                        ast.parse(out)
+                    except Exception as e:  # noqa
+                        hist[f"{rule}:raised:{type(e).__name__}"] += 1
+                        continue
+                    hist[f"{rule}:dup:{'changed' if out != src else 'same'}"] += 1
+                    if out != src:
+                        distinct.add(f"{rule}:{P}:dup")
+                    rcases.append((k10.rule_case(rule, list(P), src, out, False),
+                                   ("rule", rule, sorted(P), src, out, False)))
     f, s = write_cases(wd, "rules", "rule_case", "rule_case_ok", rcases, per=300)
     files += f; shards += s
 
@@ -427,6 +493,29 @@ def check(run: common.Run):
             if fail:
                 fail["corpus"] = c["id"]
                 failures.append(fail)
+    # the alias library: every access form x every subset of the 5 alias functions (2 buckets), the client
+    # may reference several members of one bucket; then every preserve subset through format_code
+    for i, (form, subset, c) in enumerate(alias_pairs()):
+        if quick and len(subset) not in (2, 3) and i % 4:
+            continue
+        for passes in ((1, 5) if not quick else ((1, 5)[i % 2],)):
+            n_sweep += 1
+            fail = cross_oracle(mods, tree, ALIAS_LIB, c, passes, preserved=modes[i % 2])
+            hist["sweep:alias-lib"] += 1
+            if fail:
+                fail["form"], fail["subset"], fail["preserved"] = form, list(subset), list(modes[i % 2])
+                failures.append(fail)
+    for k in range(len(ALIAS_DEFS) + 1):
+        for P in itertools.combinations(ALIAS_DEFS, k):
+            n_sweep += 1
+            fail = preserve_oracle(mods, ALIAS_LIB, set(P))
+            hist["sweep:alias-format_code"] += 1
+            if fail:
+                failures.append(fail)
+    fail = cli_oracle(tree, ALIAS_LIB, client_text("from_used", ("mean", "average", "spread", "value_range")))
+    n_sweep += 1
+    if fail:
+        failures.append(fail)
     # explicit preserve sets through format_code (the within-a-file clause), seed-independent
     for src in k10.single_statements()[:: (3 if quick else 1)]:
         for P in k10.preserve_sets(src, None, single=True, quick=True)[:: (2 if quick else 1)]:
